@@ -8,7 +8,7 @@ R-BARY  calculate_closest_points applies the barycentric weights computed for (Y
 """
 import ast
 
-from ..core.astutil import resolved, u, call_name, calls, iter_stmts, is_neg_of, walk_ordered, parent_map, index_elts, const
+from ..core.astutil import strip_docstring, resolved, u, call_name, calls, iter_stmts, is_neg_of, walk_ordered, parent_map, index_elts, const
 from ..core.index import AnalysisError, FuncInfo
 
 SCOPE = ["distance3d.gjk._gjk_jolt", "distance3d.gjk._gjk_libccd", "distance3d.gjk._gjk_original",
@@ -353,63 +353,83 @@ def r_par(idx, rep, rule="R-PAR", floor=10):
 
 
 def r_bary(idx, rep, rule="R-BARY"):
+    """Decided on the function SPECIALISED for n_points = 2, 3, 4 (core/peval.py with the parameter bound: the dispatch on n_points is folded, an
+    accumulation loop `for i in range(1, n_points)` is unrolled), by evaluating the two returned values as sums of products weight * support point."""
+    from ..core.peval import peval_node, module_tables
+    from ..core.astutil import assign_pairs
     rep.rule(rule, "calculate_closest_points applies the weights computed for (Y[0],...,Y[k]) to P[0..k] and to Q[0..k] in "
                    "the same order with the same weight variables", floor=3)
     f = idx.func("distance3d.gjk._gjk_jolt::calculate_closest_points")
-    n_found = 0
-    rets0 = [s_ for s_ in iter_stmts(f.node.body) if isinstance(s_, ast.Return) and isinstance(s_.value, ast.Tuple) and len(s_.value.elts) == 2]
-    if not rets0:
-        raise AnalysisError("calculate_closest_points no longer returns a pair")
-    na, nb = u(rets0[-1].value.elts[0]), u(rets0[-1].value.elts[1])
-    for st in iter_stmts(f.node.body):
-        if not isinstance(st, ast.If):
-            continue
-        k = None
-        if isinstance(st.test, ast.Compare) and u(st.test.left) == f.params()[3]:
-            k = const(st.test.comparators[0])
-        if not isinstance(k, int) or k < 2:
-            continue
-        body = st.body
-        w = None
-        ycall = None
-        for s in body:
-            if isinstance(s, ast.Assign) and isinstance(s.value, ast.Call) and isinstance(s.targets[0], ast.Tuple):
-                w = [u(e) for e in s.targets[0].elts]
-                ycall = s.value
-        if w is None:
-            continue
-        n_found += 1
+    ps = f.params()
+    if len(ps) < 4:
+        raise AnalysisError("calculate_closest_points signature changed")
+    Yn, Pn, Qn, Nn = ps[:4]
+    want_callee = {2: "get_barycentric_coordinates_line", 3: "get_barycentric_coordinates_plane", 4: "get_barycentric_coordinates_tetrahedron"}
+    for k in (2, 3, 4):
         key = f.key + "|n_points == %d" % k
-        where = "%s:%d" % (f.module.relpath, st.lineno)
-        yargs = [u(a) for a in ycall.args]
-        ok = yargs == ["Y[%d]" % i for i in range(k)] and len(w) == k
-        terms = {}
-        for s in body:
-            if isinstance(s, ast.Assign) and isinstance(s.targets[0], ast.Name) and s.targets[0].id in (na, nb):
-                ts = []
+        spec = peval_node(f.node, module_tables(f.module), None, bind={Nn: k})
+        st8 = {"cells": {}, "env": {}, "ret": None, "why": None}
 
-                def flat(e):
-                    if isinstance(e, ast.BinOp) and isinstance(e.op, ast.Add):
-                        flat(e.left)
-                        flat(e.right)
-                    else:
-                        ts.append(e)
-                flat(s.value)
-                terms[s.targets[0].id] = ts
-        for name, arrn in ((na, "P"), (nb, "Q")):
-            ts = terms.get(name, [])
-            good = len(ts) == k
-            for i, t in enumerate(ts):
-                if not (isinstance(t, ast.BinOp) and isinstance(t.op, ast.Mult) and {u(t.left), u(t.right)} == {w[i] if i < len(w) else "?", "%s[%d]" % (arrn, i)}):
-                    good = False
-            ok = ok and good
-        rep.check(ok, rule, key, where,
-                  "weights %s from %s are not applied as sum_i w_i*P[i] / sum_i w_i*Q[i] in order: a = %s ; b = %s" % (
-                      w, yargs, " + ".join(u(t) for t in terms.get(na, [])), " + ".join(u(t) for t in terms.get(nb, []))))
-    if n_found < 3:
-        rep.error("R-BARY: expected the 2-, 3- and 4-point cases, found %d" % n_found)
-    # the callee for k points is the k-point barycentric function
-    # returned order (a, b) and the caller unpacks (a, b) as (point on A, point on B)
+        def val(e, st8=st8):
+            """list of (weight label, support point) terms, a weight label, a support point, or None"""
+            cells, env = st8["cells"], st8["env"]
+            if isinstance(e, ast.Name):
+                return env.get(e.id, cells.get(e.id))
+            if isinstance(e, ast.Subscript):
+                t = u(e)
+                if t in cells:
+                    return cells[t]
+                if isinstance(e.value, ast.Name) and e.value.id in (Pn, Qn) and isinstance(const(e.slice), int):
+                    return ("pt", e.value.id, const(e.slice))
+                return None
+            if isinstance(e, ast.BinOp) and isinstance(e.op, ast.Mult):
+                a_, b_ = val(e.left), val(e.right)
+                for x, y in ((a_, b_), (b_, a_)):
+                    if isinstance(x, tuple) and x and x[0] == "w" and isinstance(y, tuple) and y and y[0] == "pt":
+                        return [(x, y)]
+                return None
+            if isinstance(e, ast.BinOp) and isinstance(e.op, ast.Add):
+                a_, b_ = val(e.left), val(e.right)
+                return a_ + b_ if isinstance(a_, list) and isinstance(b_, list) else None
+            return None
+
+        for st in strip_docstring(spec.body):
+            if st8["ret"] is not None or st8["why"]:
+                break
+            if isinstance(st, ast.Return):
+                st8["ret"] = st.value
+            elif isinstance(st, ast.Assign) and isinstance(st.value, ast.Call) and len(st.targets) == 1 and isinstance(st.targets[0], (ast.Tuple, ast.List)):
+                for i, t in enumerate(st.targets[0].elts):
+                    st8["cells"][u(t)] = ("w", st.value, i, len(st.targets[0].elts))
+            elif isinstance(st, ast.Assign):
+                for t, v in assign_pairs(st):
+                    if isinstance(t, ast.Name):
+                        st8["env"][t.id] = val(v)
+            elif isinstance(st, ast.AugAssign) and isinstance(st.op, ast.Add) and isinstance(st.target, ast.Name):
+                a_, b_ = st8["env"].get(st.target.id), val(st.value)
+                st8["env"][st.target.id] = a_ + b_ if isinstance(a_, list) and isinstance(b_, list) else None
+            elif isinstance(st, (ast.Expr, ast.Assert, ast.Pass)):
+                continue
+            else:
+                st8["why"] = "after specialisation for n_points = %d a `%s` statement remains" % (k, type(st).__name__)
+        ret, why = st8["ret"], st8["why"]
+        if why or ret is None or not isinstance(ret, ast.Tuple) or len(ret.elts) != 2:
+            rep.unknown(rule, key, f.where, why or "the specialised function does not end in `return a, b`")
+            continue
+        a_, b_ = val(ret.elts[0]), val(ret.elts[1])
+        ok = isinstance(a_, list) and isinstance(b_, list) and len(a_) == k and len(b_) == k
+        msg = "the returned points are not sums of %d products weight * support point" % k
+        if ok:
+            callsites = {id(w[1]) for w, _ in a_ + b_}
+            call = a_[0][0][1]
+            ok = len(callsites) == 1 and (call_name(call) or "").split(".")[-1] == want_callee[k] and [u(x) for x in call.args] == ["%s[%d]" % (Yn, i) for i in range(k)] \
+                and a_[0][0][3] == k
+            msg = "the weights must come from one call %s(%s)" % (want_callee[k], ", ".join("%s[%d]" % (Yn, i) for i in range(k)))
+            if ok:
+                ok = sorted((w[2], p[1], p[2]) for w, p in a_) == [(i, Pn, i) for i in range(k)] and sorted((w[2], p[1], p[2]) for w, p in b_) == [(i, Qn, i) for i in range(k)]
+                msg = "weight i of %s must multiply %s[i] in the first and %s[i] in the second returned point; found %s and %s" % (
+                    want_callee[k], Pn, Qn, sorted("w%d*%s[%d]" % (w[2], p[1], p[2]) for w, p in a_), sorted("w%d*%s[%d]" % (w[2], p[1], p[2]) for w, p in b_))
+        rep.check(ok, rule, key, f.where, msg + ": the closest points are then not the images of the closest point of the Minkowski difference")
     rets = [s for s in iter_stmts(f.node.body) if isinstance(s, ast.Return)]
     ok = bool(rets) and isinstance(rets[-1].value, ast.Tuple) and len(rets[-1].value.elts) == 2
     rep.check(ok, rule, f.key + "|returns (a, b)", f.where, "calculate_closest_points must return (a, b)")
